@@ -14,7 +14,8 @@ T=$(basename $DEMO .rs)
 echo "== suite with the change (expect 280 baseline tests passing, demo failing)"
 cargo nextest run --workspace --no-fail-fast --tool-config-file pb:/w/lib/nextest.toml --profile pb --test-threads 8 --offline 2>&1 | grep -E "Summary|FAIL " | sort | uniq | head -12
 echo "== demo without the change"
-git stash push -q -- src components
+git diff -- src components > $OUT/.confirm.patch
+git apply -R $OUT/.confirm.patch
 cargo test --offline --test $T 2>&1 | grep -E "^test result|passed|failed" | head -3
-git stash pop -q
+git apply $OUT/.confirm.patch
 git diff --stat -- src components | tail -1
